@@ -1120,7 +1120,15 @@ func encodeFlateLZW(w io.WriteCloser, p FlatePredictor, colors, bpc, columns int
 	}
 
 	originalZw := zw
+	closed := false
 	close := func() error {
+		// Close is idempotent: a second call (a deferred Close next to an
+		// explicit one) must not hand the compressor to the pool twice, or
+		// two later streams would share it.
+		if closed {
+			return nil
+		}
+		closed = true
 		err := originalZw.Close()
 		if err != nil {
 			return err
